@@ -592,7 +592,9 @@ def _replay_one(font, root, svg_root, Fm):
                         abs(ps.apply(N, c0)[0] - d0[0]), abs(ps.apply(N, c0)[1] - d0[1]), abs(ps.apply(N, c1)[0] - d1[0]), abs(ps.apply(N, c1)[1] - d1[1]),
                         abs(s0 - k * r0), abs(s1 - k * r1)]
                 scale = max(1.0, k, abs(d0[0]), abs(d0[1]), abs(d1[0]), abs(d1[1]), abs(s1))
-                if max(errs) > 2e-2 * scale:
+                # radii carry only their own 3-digit rounding (and k's): judged against the radii, not the coordinates
+                rscale = max(1.0, abs(s0), abs(s1), k * abs(r0), k * abs(r1))
+                if max(errs[:6]) > 2e-2 * scale or max(errs[6:]) > 5e-3 * rscale:
                     return {"radial mismatch": errs, "svg": etree.tostring(svg_root).decode()[:700]}
     if worst > 5e-2:
         return {"outline error": worst, "svg": etree.tostring(svg_root).decode()[:600]}
